@@ -164,7 +164,10 @@ def run(pid, spec, res, driver_ok, thorough, seed):
                 msg = v["msg"]
                 # minimal prefix: the history up to the op at which the monitor fires (a shorter
                 # history obtained by deleting reports would leave the provider contract)
-                small = dict(s, ops=s["ops"][:v["op_index"] + 1]) if "ops" in s and s["ops"] and s["ops"][0]["op"] == "init" else s
+                if v.get("ops"):
+                    small = dict(s, ops=v["ops"])          # a twin run: its own operation sequence
+                else:
+                    small = dict(s, ops=s["ops"][:v["op_index"] + 1]) if "ops" in s and s["ops"] and s["ops"][0]["op"] == "init" else s
                 path = write_replay(pid, seed, "violation%d" % len(res.violations), small, msg)
                 res.violations.append({"msg": msg, "replay": path})
             break
